@@ -216,6 +216,40 @@ def check(ctx: Ctx, col: Collector, tier: str) -> None:
                                       *([] if good else [f"{fname}: {sorted(probs2)[0] if probs2 else 'no emitting path'}: the subclass's own {label.split(':')[-1]} does not take precedence over a member "
                                                          f"inherited from a private ancestor (the member is emitted twice) whenever the recorded spelling differs from the inherited member's Python name"]))
 
+    # nested classes of an inlined private base pass the same filter: a public-named nested class the subclass (or a nearer ancestor) already
+    # declares is not copied again, and a copied one is recorded for the farther ancestors
+    ifi0 = repo.function(GEN, f"{GENCLS}._create_internal_class_string")
+    for already in (True, False):
+        it0 = ctx.interp(ifi0, inline={"is_internal"})
+        adn = ListV((Const("Meta"),) if already else (Const("other_name"),), False, "set")
+        it0.run_function(ifi0, {"self": Sym("self"), "superclass": Sym("superclass"), "inner_indentations": Sym("ind"), "already_defined_names": adn}, gen_state())
+        cloops = find_loops(it0, ifi0, lambda v: repr(v).endswith(".classes>") or ".classes" in repr(v) and "superclasses" not in repr(v))
+        key = f"{GEN}::{GENCLS}._create_internal_class_string::nested-class-filter::already_defined={already}"
+        if len(cloops) != 1:
+            col.bad("C17.FILTER", key, repo.loc(GEN, ifi0.node), f"{len(cloops)} loops over the nested classes of the inlined base", "nested classes of an inlined private base are not copied by one loop")
+            continue
+        node0, _, _, entry0 = cloops[0]
+        inner = Obj("Class", (("name", Const("Meta")), ("is_public", Const(False))))
+        emitted, recorded = set(), set()
+        for o in run_body(it0, node0, entry0.clone(), inner):
+            eff = new_effects(o, entry0)
+            calls = [e for e in eff if e.kind == "call" and e.target == "self._create_class_string"]
+            emitted.add(bool(calls))
+            if calls:
+                recorded.add(any(e.kind in ("mutate", "call") and e.target.endswith(".add") and e.args and e.args[0] == Const("Meta") for e in eff))
+        want = not already
+        good = emitted == {want} and (already or recorded == {True})
+        (col.ok if good else col.bad)("C17.FILTER", key, repo.loc(GEN, node0), f"copied={want}" + ("" if already else ", recorded for the farther ancestors") if good else f"copied={sorted(emitted)}, recorded={sorted(recorded)}; reference copied={want}",
+                                      *([] if good else ["a nested class of a private base is copied into the public subclass without looking at the names already defined"
+                                                         + (" and without being recorded" if not already else "") + ": `class _Base: class Meta: ...` / `class Model(_Base): class Meta: ...` "
+                                                         "declares `Meta` twice in `class Model` (and once more per private ancestor that nests a class of that name)"]))
+    # ... for which the subclass's own nested classes have to be among the names it passes on
+    own_nested = any(isinstance(n, (ast.Assign, ast.AnnAssign, ast.Expr, ast.AugAssign)) and "already_defined_names" in ast.unparse(n) and "class_.classes" in ast.unparse(n) for n in ast.walk(cfi.node))
+    (col.ok if own_nested else col.bad)("C17.OWN-FIRST", f"{key0}::own-nested-classes-passed", repo.loc(GEN, cfi.node),
+                                        "the names of the class's own nested classes are part of the already-defined names" if own_nested else "already_defined_names is built from attributes and methods only",
+                                        *([] if own_nested else ["the subclass's own nested classes are not among the names handed to the inlining of private bases: a nested class the subclass redeclares "
+                                                                 "(`class Meta`) is copied from the private base as well"]))
+
     # ------------------------------------------------------------------ RECURSE
     ifi = repo.function(GEN, f"{GENCLS}._create_internal_class_string")
     col.touched(ifi)
